@@ -10,7 +10,8 @@ export VERIF_DIR="$PWD"
 REPO="${VERIF_REPO:-/repo}"
 export GOFLAGS=-mod=mod GOPROXY=off
 unset GOTOOLCHAIN GOSUMDB
-B="$VERIF_DIR/.build/$ID"
+# VERIF_BUILD_TAG keeps concurrent runs of one check (scratch-repo trials) out of each other's build output
+B="$VERIF_DIR/.build/$ID${VERIF_BUILD_TAG:+.$VERIF_BUILD_TAG}"
 mkdir -p "$B" bin
 GO=go
 if ! go version >/dev/null 2>&1 || ! (cd "$REPO" && go list -m >/dev/null 2>&1); then
